@@ -199,7 +199,7 @@ def l1_case(draw, ser=None):
 def l2_case(draw, ser):
     core = draw(st.integers(0, 2)) != 0
     v = draw(V.core_values(10) if core else ext_values(ser))
-    return {"layer": 2, "ser": ser, "v": v, "kw": draw(kwnames), "pad": draw(st.sampled_from([0, 0, 40, 90, 101, 300])),
+    return {"layer": 2, "ser": ser, "v": v, "kw": draw(kwnames), "pad": draw(st.sampled_from([0, 0, 40, 90, 101, 300, 0, 40, 90, 101, 300, 59990, 70000, 130000])),
             "compress": draw(st.booleans()), "ann": draw(st.sampled_from([0, 0, 1, 2, 3]))}
 
 
@@ -290,6 +290,11 @@ def _echo_class():
             RECEIVED[token] = (args, kwargs)
             return ORIGINALS[token]
 
+        def echo_padded(self, token, n, /, *args, **kwargs):
+            # a reply that is as long as the request: both directions cross the transport's chunk size
+            RECEIVED[token] = (args, kwargs)
+            return [ORIGINALS[token], "r" * n]
+
         def stream(self, token):
             v = ORIGINALS[token]
             yield v
@@ -307,6 +312,10 @@ def _setup_live(servertype):
     os.environ["TZ"] = "UTC"
     time.tzset()
     live.quiet_logs()
+    if _live.get("commtimeout"):
+        # sockets with a timeout take the non-blocking code paths of the transport (stimulus only: 30 s is never reached)
+        _live["scope"] = live.ConfigScope(COMMTIMEOUT=_live["commtimeout"])
+        _live["scope"].__enter__()
     s = live.Served(servertype)
     s.daemon.register(_echo_class()(), "echo")
     _live["served"] = s
@@ -323,6 +332,8 @@ def _teardown_live():
             except Exception:
                 pass
         _live["served"].stop()
+        if _live.get("scope") is not None:
+            _live["scope"].__exit__()
         _live.clear()
 
 
@@ -357,7 +368,15 @@ def run_l2(case):
     L["served"].daemon.v_annotations = (lambda: {"VSRV": b"server annotation", "VSR2": b""}) if ann & 2 else None
     try:
         try:
-            res = p.echo(token, v, [v, pad], **{kw: v})
+            if len(pad) >= 1000:
+                res = p.echo_padded(token, len(pad), v, [v, pad], **{kw: v})
+                if type(res) is list and len(res) == 2 and res[1] == "r" * len(pad):
+                    res = res[0]
+                else:
+                    viol("padding", "long reply arrived as %.120r" % (res,))
+                    return out
+            else:
+                res = p.echo(token, v, [v, pad], **{kw: v})
         except Exception as x:
             viol("call-raises", "remote call raised %r" % (x,))
             return out
@@ -509,6 +528,8 @@ def _labels(case):
     l = ["L%d" % case["layer"], "ser:" + case["ser"], "core" if V.is_core(v) else "ext"]
     if case["layer"] == 2 and case.get("compress"):
         l.append("compressed")
+    if case["layer"] == 2 and case.get("pad", 0) >= 1000:
+        l.append("message-longer-than-transport-chunk")
     if case["layer"] == 2 and case.get("ann"):
         l.append("annotations:" + {1: "request", 2: "reply", 3: "both"}[case["ann"]])
     for x in V.leaves(v):
@@ -520,7 +541,8 @@ def _labels(case):
 
 def SHARDS(tier):
     sh = [{"layer": 1, "ser": s} for s in SERS] + [{"layer": 1, "ser": s} for s in SERS]
-    sh += [{"layer": 2, "ser": s, "servertype": t} for s in SERS for t in ("thread", "multiplex")]
+    sh += [{"layer": 2, "ser": s, "servertype": t, "commtimeout": 30.0 if (i + j) % 2 else 0.0}
+           for i, s in enumerate(SERS) for j, t in enumerate(("thread", "multiplex"))]
     sh += [{"layer": 3, "servertype": "thread", "sers": ["msgpack", "msgpack", "msgpack"]}, {"layer": 3, "servertype": "thread", "sers": ["serpent", "json", "marshal", "msgpack"]}]
     return sh
 
@@ -546,12 +568,13 @@ def run(ctx):
     else:
         _live["keep"] = True
         _live["servertype"] = sh["servertype"]
+        _live["commtimeout"] = sh.get("commtimeout", 0.0)
         try:
             def rc(case):
                 case = dict(case, servertype=sh["servertype"])
                 return run_l2(case)
             ctx.search(l2_case(sh["ser"]), rc, ctx.n(250, 4000), nontrivial=_nontrivial,
-                       labels=lambda c: _labels(c) + ["server:" + sh["servertype"]], name="l2" + sh["ser"])
+                       labels=lambda c: _labels(c) + ["server:" + sh["servertype"]] + (["commtimeout-set"] if sh.get("commtimeout") else []), name="l2" + sh["ser"])
         finally:
             _live["keep"] = False
             _teardown_live()
